@@ -275,6 +275,10 @@ def run(ctx):
     texts, dist = gen_texts(ctx, ctx.n(5000, 40000))
     texts = FIXED + common.corpus('parse')[:ctx.n(200, 2000)] + texts
     res = {'disagreements': [], 'failures': []}
+    # parse() is tuple(parsestream()): two lazily consumed streams advanced alternately must each give the statements of
+    # their own text (the oracle lives in props/C20.py)
+    from props import C20 as _c20
+    res['failures'] += _c20.interleave_failures()[:1]
     hist = collections.Counter()
     for flag in (0, 1):
         dis, dumps = common.corr_stage('split', texts, lambda s, flag=flag: impl_splitapi.split_dump(s, bool(flag)),
@@ -324,8 +328,15 @@ def search(ctx, hints):
 
 
 def shrink(f):
+    if f and f.get('kind') == 'interleaved_streams':
+        return f
     return common.shrink_failure(f, oracle_new)
 
 
 def replay(payload):
+    f = payload.get('failure') or {}
+    if f.get('kind') == 'interleaved_streams':
+        from props import C20 as _c20
+        g = _c20.oracle(f)
+        return {'fails': bool(g), 'observed': g}
     return common.replay_with(oracle, payload)
